@@ -93,3 +93,32 @@ pub fn structured_cases(rng: &mut ChaCha8Rng, count: usize) -> Vec<Value> {
     }
     out
 }
+
+/// Random forests with more than 20 nodes (the parallel code path): shortest paths are
+/// unique, so betweenness values are integers or halves and closeness values have small
+/// denominators - the specification's 32-bit rationals can judge them.
+pub fn forest_cases(rng: &mut ChaCha8Rng, count: usize, minn: i32, maxn: i32) -> Vec<Value> {
+    let mut out = vec![];
+    for i in 0..count {
+        let n = rng.gen_range(minn..=maxn);
+        let directed = i % 2 == 0;
+        let comps = rng.gen_range(1..=3);
+        let mut names: Vec<i32> = (1..=n).collect();
+        names.shuffle(rng);
+        let mut es: Vec<EdgeArg> = vec![];
+        let w: i64 = if i % 3 == 0 { 2 } else { NAN_W };
+        // node j (in shuffled order) attaches to an earlier node of its component
+        for j in (comps as usize)..names.len() {
+            let comp = j % comps as usize;
+            let earlier: Vec<usize> = (0..j).filter(|x| x % comps as usize == comp).collect();
+            let p = earlier[rng.gen_range(0..earlier.len())];
+            let (a, b) = if rng.gen_bool(0.5) { (names[p], names[j]) } else { (names[j], names[p]) };
+            es.push((a, b, if w == NAN_W { NAN_W } else { rng.gen_range(1..=3) }, 0));
+        }
+        let specs = SpecsJ { directed, multi: false, loops: false, dedupe: 2, missing: 0, loopfalse: 1 };
+        let mut order = names.clone();
+        order.shuffle(rng);
+        out.push(case_json(specs, &[Op::AddNodes(order.into_iter().map(|x| (x, 0)).collect()), Op::AddEdges(es)], "forest"));
+    }
+    out
+}
